@@ -175,6 +175,9 @@ def written_items(repo, cit, build, via='CIF.save'):
     cit.stubs[repo.func(MOD, 'Chunk.write').fq] = recorder
     try:
         def go(i):
+            rec.clear()
+            # (a builder sequence may save in between: what that save wrote is dropped, only the final save is looked at)
+            i.saved_in_between = lambda c_: (i.call_function(repo.func(MOD, 'CIF.save'), [Sink()], {}, bound=c_), rec.clear())
             c = build(i)
             if via == 'save_cif':
                 return i.call_function(repo.func(MOD, 'save_cif'), [Sink(), c], {})
@@ -244,6 +247,17 @@ def run(tier: str) -> Run:
             return f'?REFUSED: Chunk.write raises {outs[0].exc_type} at {outs[0].where}\n'  # not CIF: every rule that reads this text reports it
         if len(outs) != 1 or outs[0].kind != 'return':
             raise AnalysisError(f'Chunk.write({pairs!r}) did not evaluate to a single path: {[(o.kind, o.exc_type, o.where) for o in outs]}')
+        return sink.text()
+
+    def write_chunk_from(make_pairs):
+        sink = Sink()
+
+        def go(i):
+            ch = i.construct(chunk_cls, [make_pairs()], {}, None)
+            return i.call_function(i.find_method(ch.cls, 'write'), [sink], {}, bound=ch)
+        outs = it.run_all(go)
+        if len(outs) != 1 or outs[0].kind != 'return':
+            return f'?{[(o.kind, o.exc_type, o.where) for o in outs]}'
         return sink.text()
 
     def write_loop(cols, comment=''):
@@ -507,6 +521,51 @@ def run(tier: str) -> Run:
         ok = len(outs) == 1 and outs[0].kind == 'return' and all(have.values())
         r6.check(ok, f'reduced data, then calibration, then a reducer, then authors, saved through {via}', where_of(repo, MOD, 'CIF.copy', 'CIF.save'),
                  {'written': have, 'outcomes': [(o.kind, o.exc_type, o.where) for o in outs], 'items_written': len(items)}, key=f'sequence:{via}')
+
+    # ---- R7: the documented ways of handing over tag-value pairs ---------------------------------------------------------
+    r7 = run.rule('R7', 'tag-value pairs given as a mapping, as a list of pairs and as a one-shot iterator of pairs (zip, generator) are written alike', 3)
+    from sa.interp import GenResult
+    plist = [('k', 'v'), ('second', 'w'), ('third', 'x y')]
+    as_mapping = write_chunk_from(lambda: dict(plist))
+    for label, mk in (('list of pairs', lambda: list(plist)), ('zip of tags and values', lambda: GenResult(list(plist))),
+                      ('tuple of pairs', lambda: tuple(plist))):
+        got7 = write_chunk_from(mk)
+        r7.check(got7 == as_mapping and 'second' in as_mapping, label, loc(repo.func(MOD, 'Chunk.write')), {'from_a_mapping': as_mapping[:120], 'written': got7[:120]}, key=f'pairs:{label}')
+
+    # the same with saves in between: what a builder (or the builder it was derived from) wrote earlier does not change what is written now
+    for label, steps in (('authors added after the builder was saved', ('A', 'save', 'B')),
+                         ('authors added to a builder saved before it had any', ('save', 'A', 'B')),
+                         ('the same builder saved twice', ('A', 'B', 'save')),
+                         ('a reducer added after the builder was saved', ('A', 'B', 'save', 'reducer'))):
+        T.reset()
+        cm = CifModel()
+        cit = WitnessInterp(repo, cm)
+
+        def build6h(i, steps=steps):
+            c = i.construct(cif_cls, [], {'name': 'n'}, None)
+            for st_ in steps:
+                if st_ == 'save':
+                    i.saved_in_between(c)
+                elif st_ == 'reducer':
+                    c = i.call_function(repo.func(MOD, 'CIF.with_reducers'), ['reduction software 1.0'], {}, bound=c)
+                else:
+                    c = i.call_function(repo.func(MOD, 'CIF.with_authors'), [Person(st_, 'lead' if st_ == 'A' else 'dev', st_ == 'A')], {}, bound=c)
+            return c
+        outs, items = written_items(repo, cit, build6h)
+        tables = [item_table(x) for x in items]
+        names = []
+        for t_ in tables:
+            for k_ in ('audit_contact_author.name', 'audit_author.name'):
+                v_ = t_.get(k_)
+                if v_ is not None:
+                    names.extend(list(v_) if isinstance(v_, list | tuple) else ([x for x in (cm.text_items(v_) if hasattr(cm, 'text_items') else [v_])]))
+        flat = ' '.join(str(x) for x in names)
+        have = {'author A': 'A' in flat, 'author B': 'B' in flat}
+        if 'reducer' in steps:
+            have['reducer'] = any(t_.get('computing.diffrn_reduction') == 'reduction software 1.0' for t_ in tables)
+        ok = len(outs) == 1 and outs[0].kind == 'return' and all(have.values())
+        r6.check(ok, label, where_of(repo, MOD, 'CIF.copy', 'CIF.save'), {'written': have, 'steps': list(steps), 'author_cells': flat[:120],
+                                                                          'outcomes': [(o.kind, o.exc_type, o.where) for o in outs]}, key=f'history:{label}')
 
     # ---- R5 numbers with a standard uncertainty ------------------------------------------------------------
     r5 = run.rule('R5', 'a number supplied with a variance is written in the compact value(su) notation on every path, one supplied without is written '
